@@ -10,6 +10,7 @@ import contextlib
 import pickle
 
 from .. import mgr
+from .. import refmodel as RM
 from .. import terms as T
 from ..mgr import ManagerSystem, WORLDS
 from ..world import World
@@ -51,6 +52,16 @@ def alphabet_for(world, name):
     return cfg
 
 
+def state_obs(w):
+    m = w.m
+    idx = []
+    for d in (m.rdeps, m.rtasks, m.deptasks, m.tartasks):
+        idx.append(sorted((str(k), sorted((str(i), cnt) for i, cnt in v.items())) for k, v in d.items() if len(v)))
+    tasks = [(str(k), type(t).__name__, str(getattr(t, "expr", None)), repr(getattr(t, "prev_value", None)), repr(getattr(t, "_applied", None)))
+             for k, t in m.tasks.items()]
+    return (tasks, idx, bool(m._tree_frozen))
+
+
 class System(ManagerSystem):
     prop = "C12"
 
@@ -90,7 +101,9 @@ class System(ManagerSystem):
             return issues
         if m2.dump() != m.dump():
             issues.append(self.issue("violation", hist, op, "the copy's definitions differ", {"orig": m.dump(), "copy": m2.dump()}))
-        if mgr.canon_obs(c) != mgr.canon_obs(w):
+        # data, the ordered list of definitions, and the four indices as multisets (keys and counts).  The insertion order of the
+        # indices is deliberately not compared: a manager that rebuilds its indices when unpickled is still a faithful copy.
+        if not T.same(c.contents(), w.contents()) or state_obs(c) != state_obs(w):
             issues.append(self.issue("violation", hist, op, "the copy's concrete state (data / tasks / indices) differs from the original",
                                      {"orig": mgr.index_dump(m), "copy": mgr.index_dump(m2),
                                       "contents": repr(w.contents()), "copy_contents": repr(c.contents())}))
@@ -102,7 +115,13 @@ class System(ManagerSystem):
         if probs:
             issues.append(self.issue("violation", hist, op, "copy: " + probs[0]))
         # mirrored follow-ups, alternating which side goes first
+        ns_cur = ns
         for i, f in enumerate(self.followups(ns)):
+            try:
+                ns_next, ex_f = RM.step(ns_cur, f)
+                underdet = bool(ex_f.assigned is not None and ex_f.trigger and mgr.order_underdetermined(ns_next, ex_f.trigger))
+            except Exception:  # noqa
+                ns_next, underdet = ns_cur, False
             first, second = (c, w) if i % 2 == 0 else (w, c)
             before_second = second.contents()
             try:
@@ -124,9 +143,12 @@ class System(ManagerSystem):
                 issues.append(self.issue("violation", hist, op, f"assigning {mgr.op_str(f)} on one manager changed the other's data"))
                 break
             if not T.same(c.contents(), w.contents()):
+                if underdet:
+                    break    # the recorded sibling-cycle finding leaves the update order open here: no agreement demanded
                 issues.append(self.issue("violation", hist, op, f"original and copy disagree after follow-up {mgr.op_str(f)}",
                                          {"diff(copy vs original)": mgr.diff_contents(c.contents(), w.contents())[:6]}))
                 break
+            ns_cur = ns_next
         try:
             with contextlib.redirect_stdout(io.StringIO()):
                 m2.verify()
